@@ -293,3 +293,98 @@ def check_c17(chk, tier):
                 "in which some detector flags something.")
     chk.assumptions = ["solang's public lexer yields the same token boundaries the parser sees",
                        "comments adjacent to a pragma value are not generated (they would be part of the value token)"]
+
+
+# ---------------------------------------------------------------------------
+# C11 / C12 / C13 (shared report machinery)
+# ---------------------------------------------------------------------------
+
+def _report_check(chk, tier, pid):
+    hb = vlib.build_harness("dev")
+    d = wdir(pid)
+    beh = []
+    for cat in ("vulnerabilities", "optimizations", "qa"):
+        r = vlib.tlc("MC_Report", "MC_Report.%s.cfg" % cat, workers=8, timeout=1800, tag=pid)
+        chk.add_tlc(r)
+        beh += r.records.get("REPLAY", [])
+    if len(beh) < 1000:
+        raise ToolError("MC_Report generated only %d findings maps" % len(beh))
+    if tier == "thorough":
+        n1 = vlib.tlc("MC_Report", "MC_Report.neg1.cfg", workers=4, timeout=600, expect_violation=True)
+        n2 = vlib.tlc("MC_Report", "MC_Report.neg2.cfg", workers=4, timeout=600, expect_violation=True)
+        if n1.violated != "Totals" or n2.violated != "Deterministic":
+            raise ToolError("negative controls of MC_Report did not fail as expected (%s, %s)" % (n1.violated, n2.violated))
+        chk.extra["negative_controls"] = ["LowHeadingAlways violates Totals", "HashOrderEntries violates Deterministic"]
+    bpath = os.path.join(d, "behaviours.ndjson")
+    vlib.write_ndjson(bpath, beh)
+    tpath = os.path.join(d, "trace.ndjson")
+    scratch = vlib.scratch_dir(pid)
+    try:
+        k = {"quick": 8, "thorough": 64}[tier] if pid == "C13" else 1
+        rnd = {"quick": 200, "thorough": 2000}[tier]
+        res = vlib.harness(hb, ["report-replay", bpath, str(k), str(rnd), tpath], env={"VERIF_SCRATCH": scratch}, timeout=3000)
+    finally:
+        shutil.rmtree(scratch, ignore_errors=True)
+    if pid != "C13":
+        # byte-level determinism is C13's subject
+        res["violations"] = [v for v in res["violations"] if not v["sig"].startswith("nondeterministic")]
+    chk.add_harness(res, count_traces=False)
+
+    def describe(rec, why):
+        if rec["k"] == "render":
+            sev = ""
+            if why in ("heading-iff", "own-severity"):
+                present = sorted(set(i["s"] for i in rec["items"] if i["t"] == "Severity"))
+                sev = ":" + "+".join(present)
+                if why == "heading-iff":
+                    have = set(vlib_sev(p) for p in rec["findings"])
+                    extra = [s for s in present if s not in have]
+                    missing = [s for s in have if s not in present]
+                    sev = ":extra=%s:missing=%s" % ("+".join(extra), "+".join(sorted(missing)))
+            return ("report:%s:%s%s" % (rec["cat"], why, sev),
+                    "the %s report for findings %s read back as %s violates '%s'" % (
+                        rec["cat"], json.dumps(rec["findings"])[:300], json.dumps(rec["items"])[:400], why))
+        if rec["k"] == "same":
+            return ("nondeterministic-items:%s" % rec["cat"], "two renderings of the same findings differ: %s" % json.dumps(rec["findings"])[:300])
+        return ("category-part-iff", "category parts present %s but categories with findings %s" % (rec.get("present"), rec.get("nonempty")))
+    if pid == "C13":
+        # only the determinism records matter
+        recs = [r for r in vlib.read_ndjson(tpath) if r["k"] == "same"]
+        vlib.write_ndjson(tpath, recs)
+    trace_validate(chk, "TV_Report", tpath, describe, env={"MODE": pid}, timeout=3000)
+    chk.exhaustive = True
+
+
+def vlib_sev(p):
+    return {"unprotected_selfdestruct": "High", "divide_before_multiply": "Medium",
+            "unsafe_erc20_operation": "Low", "floating_pragma": "Low"}.get(p, "none")
+
+
+_REPORT_RULE = ("TLC runs the renderer machine (outer loop over the map in any order, severity buffers, running total) over "
+                "every findings map with <= 4 patterns per category and 6 file/line shapes per pattern (all 16 subsets of "
+                "the vulnerability patterns), checking the listed properties and the canonical renderer; every map is built "
+                "as the real HashMap (hostile file names) and rendered by the real generate_*_report, plus each pattern "
+                "alone, each pair, random large maps and end-to-end generate_report runs; the text is tokenised with "
+                "section texts read from /repo and TV_Report evaluates the same predicates on what the code wrote. ")
+
+
+@prop("C11")
+def check_c11(chk, tier):
+    _report_check(chk, tier, "C11")
+    chk.rule = _REPORT_RULE + "Non-trivial = maps with >= 2 patterns and more files than patterns."
+    chk.assumptions = ["section texts are the raw strings in src/report/report_sections/*/*.rs", "file names contain no line break"]
+
+
+@prop("C12")
+def check_c12(chk, tier):
+    _report_check(chk, tier, "C12")
+    chk.rule = _REPORT_RULE + "Non-trivial = maps with >= 2 patterns and more files than patterns."
+    chk.assumptions = ["every pattern present in a findings map has at least one file with at least one line (what analyze_dir produces)"]
+
+
+@prop("C13")
+def check_c13(chk, tier):
+    _report_check(chk, tier, "C13")
+    chk.rule = _REPORT_RULE + ("For C13 every bag of findings is rendered 1+k times from maps filled in different insertion orders "
+                               "(fresh SipHash keys per map) and with permuted file vectors; all renderings must be byte-identical.")
+    chk.assumptions = ["two findings maps with the same bag of (pattern, file, lines) entries denote the same set of findings"]
